@@ -15,7 +15,7 @@ LEVEL = "fault_enumeration"
 RULE = ("Case = generated recording (probe metadata with 1..384 channels, or a metadata-free flat binary; ns 1..600 not a "
         "multiple of the chunk; chunk 7..97 samples; 1/2 compression threads) + a history of 3..8 operations drawn by "
         "Hypothesis (model-based): compress(keep), decompress(keep, overwrite), decompress_to_scratch(dir|same folder), "
-        "reopen through the bin / cbin / meta path, each optionally with a failure injected. For every compress / scratch "
+        "reopen through the bin / cbin / meta path (built directly, with open=False + open(), from a str path, or from the data file alone in another folder with explicit meta_file / ch_file), each optionally with a failure injected. For every compress / scratch "
         "operation of the history ALL fault points are enumerated (an I/O error at every chunk index, in the "
         "post-compression verification and at the publishing rename, and a process death (BaseException) before every "
         "compression batch / while the scratch output is open) on a copy of the directory. Oracle: (a) reads through cbin == reads through bin == "
@@ -71,6 +71,9 @@ def _case(draw):
             o["k"] = draw(st.integers(0, 10 ** 6))
         else:
             o["via"] = draw(st.sampled_from(["bin", "cbin", "meta", "meta"]))
+            # how the reader is built: default; open=False followed by open(); the path as a str; the data file alone in
+            # another folder with its companions (.meta, .ch) passed explicitly
+            o["how"] = draw(st.sampled_from(["default", "default", "deferred", "str", "explicit"]))
         ops.append(o)
     sl = draw(st.lists(st.tuples(st.integers(-ns - 3, ns + 3), st.integers(-ns - 3, ns + 3),
                                  st.sampled_from([1, 2, 3, 4, 5, -1, -2, -3, -4, -5])), max_size=6))
@@ -125,11 +128,29 @@ class World:
         self.cur_chunk = case["chunk"]  # chunk size of the .cbin currently on disk (changes when a compress op uses its own)
 
     # -- reader construction ---------------------------------------------------------------------
-    def reader(self, path, kind="C02.open"):
+    def reader(self, path, kind="C02.open", how="default"):
         sg = sut.spikeglx()
-        if self.flat:
-            return self.ctx.call(kind, sg.Reader, path, nc=self.nc, ns=self.ns, fs=self.fs, nsync=self.nsync or None)
-        return self.ctx.call(kind, sg.Reader, path, sort=False)
+        kw = dict(nc=self.nc, ns=self.ns, fs=self.fs, nsync=self.nsync or None) if self.flat else dict(sort=False)
+        path = Path(path)
+        if how == "explicit" and path.suffix in (".bin", ".cbin"):
+            side = self.d.parent / "side"
+            shutil.rmtree(side, ignore_errors=True)
+            side.mkdir()
+            shutil.copy(path, side / path.name)
+            if path.suffix == ".cbin":
+                kw["ch_file"] = self.ch
+            if not self.flat:
+                kw["meta_file"] = self.meta
+            path = side / path.name
+        if how == "str":
+            path = str(path)
+        if how == "deferred":
+            sr = self.ctx.call(kind, sg.Reader, path, open=False, **kw)
+            if sr is self.ctx.CRASH:
+                return sr
+            r = self.ctx.call(kind, sr.open)
+            return sr if r is not self.ctx.CRASH else r
+        return self.ctx.call(kind, sg.Reader, path, **kw)
 
     def has_bin(self):
         return self.bin.exists()
@@ -472,8 +493,9 @@ def run_case(case, ctx):
                 path = {"bin": w.bin, "cbin": w.cbin, "meta": w.meta}[via]
                 if via in ("bin", "cbin") and not path.exists():
                     via, path = ("cbin", w.cbin) if via == "bin" else ("bin", w.bin)
-                ctx.label("open_" + via + ("_only_cbin" if (via == "meta" and not w.has_bin()) else ""))
-                sr = w.reader(path, kind="C02.open_" + via)
+                how = o.get("how", "default")
+                ctx.label("open_" + via + ("_only_cbin" if (via == "meta" and not w.has_bin()) else ""), "open_how_" + how)
+                sr = w.reader(path, kind="C02.open_" + via, how=how)
                 if sr is ctx.CRASH:
                     return
                 try:
